@@ -3,3 +3,5 @@ import SolverzModel.Core.Address
 import SolverzModel.Core.Vars
 import SolverzModel.Driver.Util
 import SolverzModel.Driver.C16
+import SolverzModel.Core.Mass
+import SolverzModel.Driver.C04
